@@ -64,7 +64,7 @@ for p in props:
         eng = eng.split("+")[0] if eng != "E1+E2" else "E1+E2"
         checks.append({
             "property_id": p, "quick_cmd": "./check %s --tier quick" % p, "thorough_cmd": "./check %s --tier thorough" % p,
-            "evidence_file": "%s/evidence/%s.json" % (V, p), "replay_cmd_template": "cat {path}", "engine": eng,
+            "evidence_file": "%s/evidence/%s.json" % (V, p), "replay_cmd_template": "python3-vt /verif/tools/replay.py {path}", "engine": eng,
             "level_claimed": {"category": "model_checking", "text": text, "design_ref": ref},
             "level_note": note, "technique": {"E1": E1, "E2": E2, "E3": E3}.get(eng, E1 + "; " + E2)})
 m = {
